@@ -71,7 +71,7 @@ def judge(acc, arm, ref, case, G, th, ok, free, reachable, expect_success, ptol,
     want = ref.fk(tha)
     e = float(np.abs(arm.getEEPos().gTM() - want).max())
     acc.resid("state_coherent", e)
-    if e > 1e-7 * sc:
+    if not (e <= 1e-7 * sc):
         acc.violation("state_incoherent_after_solve", case, e, 1e-7 * sc, flags={"success": ok})
     if ok:
         if not reachable:
@@ -79,18 +79,18 @@ def judge(acc, arm, ref, case, G, th, ok, free, reachable, expect_success, ptol,
         ew, ev, (ang, dist) = errors(ref, th, G)
         acc.resid("claimed_rot_over_tol", ew / rtol)
         acc.resid("claimed_pos_over_tol", ev / ptol)
-        if ew > rtol * (1 + 1e-6) + 1e-12:
+        if not (ew <= rtol * (1 + 1e-6) + 1e-12):
             acc.violation("claimed_orientation_error", case, ew, rtol)
-        if ev > ptol * (1 + 1e-6) + 1e-12:
+        if not (ev <= ptol * (1 + 1e-6) + 1e-12):
             acc.violation("claimed_position_error", case, ev, ptol)
-        if dist > ptol + rtol * float(np.linalg.norm(G[:3, 3])) + 1e-12:
+        if not (dist <= ptol + rtol * float(np.linalg.norm(G[:3, 3])) + 1e-12):
             acc.violation("claimed_position_distance", case, dist, ptol)
         same, d = poe.mod2pi_equal(th, tha, 1e-9)
         if not same:
             acc.violation("state_is_not_solution", case, d, 1e-9)
         if not free:
             ex = float(max(0.0, (th - ref.hi).max(), (ref.lo - th).max()))
-            if ex > 1e-12:
+            if not (ex <= 1e-12):
                 acc.violation("answer_outside_limits", case, ex, 0.0)
     else:
         if expect_success:
